@@ -26,6 +26,10 @@
 #include <stdlib.h>
 #include <string.h>
 #include <stdint.h>
+#include <signal.h>
+#include <setjmp.h>
+#include <unistd.h>
+#include <sys/time.h>
 #include "mir-alloc.h"
 #include "mir-varr.h"
 #include "mir-bitmap.h"
@@ -94,7 +98,7 @@ static void run_varr (char *args, char *ops) {
       VARR_TRUNC (elt, v, strtoul (rest, NULL, 10));
       printf (" -");
     } else if (!strcmp (name, "expand")) {
-      printf (" b%d", VARR_EXPAND (elt, v, strtoul (rest, NULL, 10)));
+      printf (" #b%d", VARR_EXPAND (elt, v, strtoul (rest, NULL, 10))); /* "did realloc": capacity bookkeeping */
     } else if (!strcmp (name, "tailor")) {
       VARR_TAILOR (elt, v, strtoul (rest, NULL, 10));
       printf (" -");
@@ -408,9 +412,29 @@ static void run_dlist (char *args, char *ops) {
   printf ("\n");
 }
 
+/* watchdog: a script that makes the implementation loop (e.g. a corrupted list) must not hang the
+   run: after 2 s of CPU time (ITIMER_VIRTUAL: immune to machine load) the line is abandoned and ends
+   with the token HANG; after 5 hangs the harness exits (the driver restarts it on the rest) */
+static sigjmp_buf watchdog_jb;
+static int n_hangs;
+static void on_alarm (int sig) { siglongjmp (watchdog_jb, 1); }
+static void watchdog (int secs) {
+  struct itimerval it = {{0, 0}, {secs, 0}};
+  setitimer (ITIMER_VIRTUAL, &it, NULL);
+}
+
 int main (void) {
   static char line[1 << 20];
+  signal (SIGVTALRM, on_alarm);
+  setvbuf (stdout, NULL, _IOLBF, 0); /* a crash must not lose the lines already produced */
   while (fgets (line, sizeof (line), stdin)) {
+    if (sigsetjmp (watchdog_jb, 1)) {
+      printf (" HANG\n");
+      fflush (stdout);
+      if (++n_hangs >= 5) return 3;
+      continue;
+    }
+    watchdog (2);
     char *colon = strchr (line, ':');
     if (colon == NULL) continue;
     *colon = 0;
@@ -427,6 +451,7 @@ int main (void) {
       run_dlist (line + off, colon + 1);
     else
       printf ("?kind %s\n", kind);
+    watchdog (0);
   }
   return 0;
 }
